@@ -255,6 +255,11 @@ func (c *RepoCache) buildCache(events chan BuildEvent) {
 
 			buildEvents := subcache.Build()
 			for buildEvent := range buildEvents {
+				if buildEvent.Err != nil {
+					// A cache that could not be built is not usable and whoever asked for it will not
+					// Close() it: give the lock back before reporting the failure.
+					_ = c.repo.LocalStorage().Remove(lockfile)
+				}
 				events <- buildEvent
 				if buildEvent.Err != nil {
 					return
